@@ -194,12 +194,20 @@ func (cp *copier) walkMount(dest, src string, maxSymlinks int, walkMountsBelow b
 		cp.manifest += mft.Extract(srcRelPath, dest).Text
 	}
 	if walkMountsBelow {
-		return cp.walkMountsBelow(dest, src)
+		return cp.walkMountsBelow(dest, src, maxSymlinks)
 	}
 	return nil
 }
 
-func (cp *copier) walkMountsBelow(dest, src string) error {
+func (cp *copier) walkMountsBelow(dest, src string, maxSymlinks int) error {
+	// Mounted collections cannot contain symlinks, but a "tmp"
+	// mount found below src (e.g., the output directory itself,
+	// when src is a collection mounted above it) can: it must
+	// not get a fresh budget, or a symlink cycle through it is
+	// followed forever.
+	if maxSymlinks > 0 {
+		maxSymlinks = 0
+	}
 	for mnt, mntinfo := range cp.mounts {
 		if !strings.HasPrefix(mnt, src+"/") {
 			continue
@@ -226,7 +234,7 @@ func (cp *copier) walkMountsBelow(dest, src string) error {
 		// /mnt1/dir1/mnt2, but we only want to walk it
 		// once. (This simplification is safe because mounted
 		// collections cannot contain symlinks.)
-		err := cp.walkMount(dest+mnt[len(src):], mnt, 0, false)
+		err := cp.walkMount(dest+mnt[len(src):], mnt, maxSymlinks, false)
 		if err != nil {
 			return err
 		}
@@ -245,7 +253,7 @@ func (cp *copier) walkMountsBelow(dest, src string) error {
 // Otherwise, skip them.
 func (cp *copier) walkHostFS(dest, src string, maxSymlinks int, includeMounts bool) error {
 	if includeMounts {
-		err := cp.walkMountsBelow(dest, src)
+		err := cp.walkMountsBelow(dest, src, maxSymlinks)
 		if err != nil {
 			return err
 		}
